@@ -354,6 +354,12 @@ func (x *Exec) freshOf(st *State, name string, t types.Type) Val {
 		}
 		return out
 	}
+	if et := derefType(t); et != nil && !isTypeParam(et) && !(structOf(et) != nil && x.env.te.isObjectLike(et)) {
+		// interior pointer of unknown provenance: a symbolic element pointer
+		ref := fresh(name+".ref", sortInt)
+		x.assume(st, mkAnd(mkLe(mkInt(0), ref), mkLe(ref, x.alloc(st))))
+		return &PtrVal{Nilc: fresh(name+".nil", sortBool), Base: PElem, Ref: ref, BTyp: et, Idx: fresh(name+".idx", sortInt), Typ: et}
+	}
 	tm := fresh(name, x.env.te.sortOf(t))
 	x.assumeTyped(st, t, tm)
 	return x.fromTerm(tm, t)
@@ -847,7 +853,17 @@ func (x *Exec) applyHavoc(st *State, plan *havocPlan, tag string) {
 			continue
 		}
 		if plan.coarse[n] || so.Kind != SArray {
-			st.setH(n, fresh(tag+"."+n, so))
+			nh := fresh(tag+"."+n, so)
+			st.setH(n, nh)
+			if x.modCheck && so.Kind == SArray && so.Idx == sortInt && !strings.HasPrefix(n, "ghost:") {
+				// objects outside the function's declared frame are unchanged (every write is
+				// checked against that frame)
+				o := mkBound("o", sortInt)
+				al := x.writeAllowed(st, n, o)
+				if al != tTrue {
+					x.assume(st, mkQuant(OpForall, []*Term{o}, mkImp(mkNot(al), mkEq(mkSelect(nh, o), mkSelect(old, o)))))
+				}
+			}
 			continue
 		}
 		cur := old
